@@ -119,3 +119,29 @@ def FA(vs, body, patterns=None):
         except z3.Z3Exception:
             pass
     return z3.ForAll(vs, body)
+
+
+# ---------------------------------------------------------------- fields of a record (local object or state path)
+def fget(c, obj, name):
+    from .engine import HRef
+    if isinstance(obj, HRef):
+        return c.ctx.heap[obj.id].data[name]
+    res = list(c.eng.getattr(c.ctx, obj, name))
+    assert len(res) == 1
+    return res[0][1]
+
+
+def fset(c, obj, name, value):
+    from .engine import HRef
+    if isinstance(value, z3.ExprRef):
+        value = S(value)
+    if isinstance(obj, HRef):
+        c.ctx.heap[obj.id].data[name] = value
+        return
+    res = list(c.eng.setattr(c.ctx, obj, name, value))
+    assert len(res) == 1 and res[0][1] is None
+
+
+def fv(c, obj, name):
+    """field as a V term"""
+    return c.eng.to_v(c.ctx, fget(c, obj, name))
